@@ -1297,6 +1297,10 @@ func main() {
 				runRapidRestart(res, lib.NewRand(fl.Seed), 400)
 				res.Write(fl.Out)
 				return
+			case "location":
+				runLocationFamily(res, lib.NewRand(fl.Seed^0x10ca), 400)
+				res.Write(fl.Out)
+				return
 			case "restart-stress":
 				runStress(res, 300000)
 				res.Write(fl.Out)
@@ -1447,6 +1451,7 @@ func main() {
 		}
 		runChainFamily(res, lib.NewRand(fl.Seed^0x5eed), nChain, fl.Drv)
 		runRapidRestart(res, lib.NewRand(fl.Seed^0xbacc), nChain/2)
+		runLocationFamily(res, lib.NewRand(fl.Seed^0x10ca), nChain/6)
 	}
 	if fl.Replay == "" {
 		it := 20000
